@@ -614,7 +614,6 @@ impl Prop for C22 {
         let mut gstats = GenStats::default();
         let mut out = vec![];
         let (mut directed_generated, mut directed_accepted, mut bases, mut variants_rejected) = (0usize, 0usize, 0usize, 0usize);
-        let mut group = 0usize;
         for _ in 0..wk.n_schemas {
             let generated = guarded(|| {
                 let mut w = gen_world(rng, &wk, &mut gstats);
@@ -654,12 +653,9 @@ impl Prop for C22 {
                 }
                 let mut tags: Vec<String> = q.gq.features.iter().cloned().collect();
                 for d in 0..w.datasets.len() {
-                    group += 1;
-                    let g = format!("grp:{group}");
                     let mut push = |cmd: &str, wq: &WorldQuery, role: &str, tags: &[String]| {
                         if let Some(r) = w.request(cmd, d, wq) {
                             let mut t = tags.to_vec();
-                            t.push(g.clone());
                             t.push(format!("role:{role}"));
                             out.push(Case { request: r, tags: t });
                         }
